@@ -219,6 +219,11 @@ func cmdShow(args []string) int {
 		for o, v := range st.mem {
 			fmt.Printf("  mem o%d(%s) = %s\n", o.id, o.name, shortKey(valKey(v), 300))
 		}
+		for i, alt := range ev.RootRets {
+			for o, v := range alt.State.mem {
+				fmt.Printf("  alt%d mem o%d(%s) = %s\n", i, o.id, o.name, shortKey(valKey(v), 200))
+			}
+		}
 		for _, e := range ev.Events {
 			var as []string
 			for _, a := range e.Args {
